@@ -121,6 +121,11 @@ def weave_region(repo, header, lines, start_line, tmpl_name, report):
         sm = difflib.SequenceMatcher(a=Etxt, b=Rtxt, autojunk=False)
         # position of each exec token in elems
         pos = [k for k, e in enumerate(elems) if e.kind == "tok"]
+        # size of every hidden region
+        rsize = {}
+        for e in E:
+            if e.region:
+                rsize[e.region[0]] = rsize.get(e.region[0], 0) + 1
         new = []
         cursor = 0  # index into elems
 
@@ -131,19 +136,36 @@ def weave_region(repo, header, lines, start_line, tmpl_name, report):
         for tag, i1, i2, j1, j2 in sm.get_opcodes():
             if tag == "equal":
                 continue
-            hidden = any(E[k].deleted for k in range(i1, i2))
-            # an insertion adjacent to hidden tokens on both sides is inside a normalised region
-            if tag == "insert" and 0 < i1 < len(E) and E[i1 - 1].deleted and E[i1].deleted:
-                hidden = True
             hunk = {"op": tag, "old": " ".join(Etxt[i1:i2]), "new": " ".join(Rtxt[j1:j2]),
                     "src_line": rtoks[min(j1, len(rtoks) - 1)].line}
             rec["transplanted_hunks"].append(hunk)
-            if hidden:
+            # how does the hunk relate to hidden (normalised) regions?
+            touched = {}
+            for k in range(i1, i2):
+                if E[k].deleted:
+                    touched[E[k].region[0]] = touched.get(E[k].region[0], 0) + 1
+            inside_named = None      # hunk lies entirely inside one *named* hidden region: allowed, stays hidden
+            if tag == "insert":
+                if 0 < i1 < len(E) and E[i1 - 1].deleted and E[i1].deleted and E[i1 - 1].region == E[i1].region:
+                    if E[i1].region[1]:
+                        inside_named = E[i1].region
+                    else:
+                        touched[E[i1].region[0]] = 0
+            elif len(touched) == 1 and all(E[k].deleted for k in range(i1, i2)) and E[i1].region[1] \
+                    and touched[E[i1].region[0]] < rsize[E[i1].region[0]]:
+                inside_named = E[i1].region
+            partial = [r for r, n in touched.items() if n < rsize[r]]
+            if not inside_named and partial:
                 raise WeaveError("ANCHOR-LOST %s: source edit touches a normalised region (%s -> %s) at %s:%d"
                                  % (rec["item"], hunk["old"], hunk["new"], rel, hunk["src_line"]))
             newtoks = [Tok(t.text, t.pre if t.pre else "", t.line) for t in rtoks[j1:j2]]
             if newtoks and not newtoks[0].pre:
                 newtoks[0].pre = " "
+            if inside_named:
+                for t in newtoks:
+                    t.deleted = True
+                    t.region = inside_named
+                hunk["inside_named_region"] = inside_named[1]
             if tag == "insert":
                 # right after the previous exec token (before annotations that follow it)
                 at = (pos[i1 - 1] + 1) if i1 > 0 else 0
@@ -152,13 +174,24 @@ def weave_region(repo, header, lines, start_line, tmpl_name, report):
             else:
                 flush_to(pos[i1])
                 new.extend(newtoks)
-                # drop the old exec tokens, keep annotations that sat between them
-                for k in range(pos[i1], pos[i2 - 1] + 1):
-                    if elems[k].kind == "ins":
-                        new.append(elems[k])
+                # the old exec tokens go; annotations strictly between them annotated code that no longer
+                # exists (this includes the insertions of a normalisation whose hidden tokens all went)
+                dropped = [elems[k].text for k in range(pos[i1], pos[i2 - 1] + 1) if elems[k].kind == "ins"]
+                if dropped:
+                    hunk["dropped_annotations"] = [d[:120] for d in dropped]
                 cursor = pos[i2 - 1] + 1
         flush_to(len(elems))
         elems = new
+    # $name in an annotation stands for the current tokens of the hidden region of that name
+    named = {}
+    for e in elems:
+        if e.kind == "tok" and e.deleted and e.region and e.region[1]:
+            named.setdefault(e.region[1], []).append(e.text)
+    if named:
+        for e in elems:
+            if e.kind == "ins" and "$" in e.text:
+                for nm, toks_ in named.items():
+                    e.text = e.text.replace("$" + nm, " ".join(toks_))
     got = [e.text for e in elems if e.kind == "tok"]
     if got != Rtxt:
         raise WeaveError("G1 failed for %s: emitted exec tokens differ from the source item" % rec["item"])
